@@ -104,6 +104,14 @@ static void patch_inputs(const mj::Value& d, const mj::Value& p) {
     call("jsonpatch::apply_patch(malformed)", [&] { json doc = jc::build_doc<json>(d); json patch = jc::build_doc<json>(p); if (patch.is_array() && patch.size() > 0) { patch[0] = json(5); patch.push_back(json::parse("{\"op\":7,\"path\":\"/a\"}")); patch.push_back(json::parse("{\"op\":\"add\",\"path\":1,\"value\":1}")); } std::error_code ec; jsonpatch::apply_patch(doc, patch, ec); return (bool)ec; });
 }
 
+// an output stream that gives up after 64 MiB: an encoder that is still writing then does not terminate
+struct OutputLimit : std::exception { const char* what() const noexcept override { return "output exceeds 64 MiB: the encoder does not terminate"; } };
+struct LimitBuf : std::streambuf {
+    std::size_t n = 0; char buf[4096];
+    LimitBuf() { setp(buf, buf + sizeof buf); }
+    int_type overflow(int_type c) override { n += (std::size_t)(pptr() - pbase()); setp(buf, buf + sizeof buf); if (n > (64u << 20)) throw OutputLimit(); if (c != traits_type::eof()) { *pptr() = (char)c; pbump(1); } return 0; }
+    std::streamsize xsputn(const char* s, std::streamsize k) override { n += (std::size_t)k; if (n > (64u << 20)) throw OutputLimit(); return k; }
+};
 // ---- encoder side: (value, option set) through every text / binary encoder
 static json_options enc_options(const mj::Value& o) {
     json_options r; auto I = [&](const char* k) { return (long)o[k].as_int(); };
@@ -134,6 +142,10 @@ static void enc_inputs(const mj::Value& v, const mj::Value& o) {
     call("encode_bson(options)", [&] { std::vector<uint8_t> b; bson::encode_bson(j, b, bson::bson_options{}.max_nesting_depth((int)o["depth"].as_int())); return false; });
     call("encode_csv(options)", [&] { std::string s; csv::csv_options co; co.float_format((float_chars_format)o["ff"].as_int()).precision((int8_t)o["prec"].as_int()).quote_style((csv::quote_style_kind)(o["sac"].as_int() % 4));
                                        if (o["ichar"].as_int() == 9) co.field_delimiter('\t'); csv::encode_csv(j, s, co); return false; });
+    for (int cn = 0; cn < 3; ++cn) call(cn == 0 ? "encode_csv(column_names)" : cn == 1 ? "encode_csv(column_mapping)" : "encode_csv(m_columns options)", [&] {
+        LimitBuf lb; std::ostream os(&lb); os.exceptions(std::ios::badbit); csv::csv_options co;
+        if (cn == 0) co.column_names("x,y"); else if (cn == 1) co.column_names("a,zz").column_types("integer,string").column_defaults("0,none"); else co.header_lines(2).column_names("k").quote_style(csv::quote_style_kind::all).line_delimiter("\r\n");
+        csv::encode_csv(oj, os, co); os.flush(); return false; });
     call("encode_toon(options)", [&] { std::string s; jsoncons::toon::encode_toon(j, s, jsoncons::toon::toon_options{}.indent((int)o["indent"].as_int() % 9)); return false; });
 }
 
